@@ -369,6 +369,58 @@ def run(ctx):
                     rep.ok("C15.R4", C, node.ast)
                 else:
                     rep.bad("C15.R4", C, node.ast, f"self.{which} must be extended with {idx}[<block>.{which}]", f"{COO}:{node.lineno}")
+            elif isinstance(arg, ast.Call) and isinstance(arg.func, ast.Attribute) and dotted(arg.func.value) in ("self", "CooMatrix") and arg.func.attr in cls.methods \
+                    and len(arg.args) == 2:
+                # index-mapping helper of the container:  self._map(rows, X.row)  must BE the fancy-index map rows[X.row]
+                h = cls.methods[arg.func.attr]
+                hp = [a.arg for a in h.args.args]
+                if hp and hp[0] in ("self", "cls"):
+                    hp = hp[1:]
+                a0, a1 = arg.args
+                pair_ok = isinstance(a0, ast.Name) and a0.id == idx and isinstance(a1, ast.Attribute) and a1.attr == which
+                if not pair_ok or len(hp) != 2:
+                    rep.bad("C15.R4", C, node.ast, f"self.{which} must be extended with {idx}[<block>.{which}] (helper `{arg.func.attr}` called with other operands)", f"{COO}:{node.lineno}")
+                    continue
+                D, Lc = hp
+                rets = [r for r in ast.walk(h) if isinstance(r, ast.Return) and r.value is not None]
+                from ..model import guards_of as _go
+                verdict = "ok"
+                for r in rets:
+                    v = r.value
+                    if isinstance(v, ast.Subscript) and isinstance(v.value, ast.Name) and v.value.id == D and isinstance(v.slice, ast.Name) and v.slice.id == Lc:
+                        continue
+                    # another formula on a guarded path: sound only if the guard establishes a whole-array fact about D.  A guard that reads D at
+                    # fixed positions and through len() only cannot (index arrays are arbitrary: permuted, repeated)
+                    gs = []
+                    up = getattr(r, "_parent", None)
+                    while up is not None and up is not h:
+                        if isinstance(up, ast.If):
+                            gs.append(up)
+                        up = getattr(up, "_parent", None)
+                    # an early return above makes the fall-through guarded as well
+                    for st_ in h.body:
+                        if isinstance(st_, ast.If) and st_ not in gs and st_.lineno < r.lineno and any(isinstance(x, ast.Return) for x in ast.walk(st_)):
+                            gs.append(st_)
+                    whole = False
+                    for g in gs:
+                        for w in ast.walk(g.test):
+                            if isinstance(w, ast.Name) and w.id == D:
+                                pw = getattr(w, "_parent", None)
+                                fixed = (isinstance(pw, ast.Subscript) and pw.value is w and not isinstance(pw.slice, ast.Slice) and not any(isinstance(z, ast.Name) for z in ast.walk(pw.slice))) \
+                                    or (isinstance(pw, ast.Call) and dotted(pw.func) == "len")
+                                if not fixed:
+                                    whole = True
+                    if whole:
+                        verdict = "unknown" if verdict == "ok" else verdict
+                    else:
+                        verdict = "bad"
+                        rep.bad("C15.R4", C, r, f"index helper `{arg.func.attr}` returns `{norm_src(v)}` instead of `{D}[{Lc}]` on a path whose guard reads `{D}` only at fixed positions / through its "
+                                f"length ({'; '.join(norm_src(g.test) for g in gs)[:120]}): that cannot establish that the index array is an ascending contiguous range, so permuted or repeated "
+                                "index arrays with matching end points are written to the wrong rows / columns", f"{COO}:{r.lineno}")
+                if verdict == "ok":
+                    rep.ok("C15.R4", C, f"{norm_src(node.ast)[:70]}: helper `{arg.func.attr}` is the fancy-index map {D}[{Lc}]")
+                elif verdict == "unknown":
+                    rep.ok("C15.R4", C, f"{norm_src(node.ast)[:70]}: helper `{arg.func.attr}` has a shortcut under a whole-array guard (no verdict)", verdict="unknown")
             elif isinstance(arg, ast.Call):
                 # dense branch: find ravel order of the sibling data extension
                 order = _dense_order(cfg, node)
@@ -530,4 +582,12 @@ NEUTRAL += [
          edits=[(COO, "                self.data.extend(value.ravel(order=\"C\"))\n                self.row.extend(repeat(rows, len(cols)))\n                self.col.extend(tile(cols, len(rows)))\n",
                  "                self._append(value.ravel(order=\"C\"), repeat(rows, len(cols)), tile(cols, len(rows)))\n"),
                 (COO, "    def extend(self, matrix, DOF):", "    def _append(self, data, row, col):\n        self.data.extend(data)\n        self.row.extend(row)\n        self.col.extend(col)\n\n    def extend(self, matrix, DOF):")]),
+]
+
+MUTANTS += [
+    dict(id="c15-r4-seed", canary=True, what="[seeded by sub-agent] nested / sparse blocks mapped through a helper with an end-point 'contiguity' shortcut DOF[0] + local", file='cardillo/utility/coo_matrix.py',
+         edits=[('cardillo/utility/coo_matrix.py', 'from numpy import repeat, tile, atleast_1d, atleast_2d, arange\n', 'from numpy import repeat, tile, atleast_1d, atleast_2d, arange, asarray\n'), ('cardillo/utility/coo_matrix.py', '    def __setitem__(self, key, value):\n', '    @staticmethod\n    def _global_index(DOF, local):\n        local = asarray(local)\n        if len(DOF) and DOF[-1] - DOF[0] == len(DOF) - 1:\n            return DOF[0] + local\n        return DOF[local]\n\n    def __setitem__(self, key, value):\n'), ('cardillo/utility/coo_matrix.py', '                self.row.extend(rows[value.row])\n                self.col.extend(cols[value.col])\n', '                self.row.extend(self._global_index(rows, value.row))\n                self.col.extend(self._global_index(cols, value.col))\n'), ('cardillo/utility/coo_matrix.py', '                self.row.extend(rows[coo.row])\n                self.col.extend(cols[coo.col])\n', '                self.row.extend(self._global_index(rows, coo.row))\n                self.col.extend(self._global_index(cols, coo.col))\n')], expect="C15.R4"),
+]
+NEUTRAL += [
+    dict(id="c15-n-r4h", canary=True, what="nested / sparse blocks mapped through a helper that is the plain fancy-index map", file='cardillo/utility/coo_matrix.py', edits=[('cardillo/utility/coo_matrix.py', 'from numpy import repeat, tile, atleast_1d, atleast_2d, arange\n', 'from numpy import repeat, tile, atleast_1d, atleast_2d, arange, asarray\n'), ('cardillo/utility/coo_matrix.py', '    def __setitem__(self, key, value):\n', '    @staticmethod\n    def _global_index(DOF, local):\n        local = asarray(local)\n        return DOF[local]\n\n    def __setitem__(self, key, value):\n'), ('cardillo/utility/coo_matrix.py', '                self.row.extend(rows[value.row])\n                self.col.extend(cols[value.col])\n', '                self.row.extend(self._global_index(rows, value.row))\n                self.col.extend(self._global_index(cols, value.col))\n'), ('cardillo/utility/coo_matrix.py', '                self.row.extend(rows[coo.row])\n                self.col.extend(cols[coo.col])\n', '                self.row.extend(self._global_index(rows, coo.row))\n                self.col.extend(self._global_index(cols, coo.col))\n')]),
 ]
